@@ -2,8 +2,10 @@
   C09 — Indeterminate storage outcomes are repaired, never mis-reported.
   Model: KB.Sys with the fault oracle `Fault` on every commit (`uncApplied` / `uncNotApplied` = the
   engine answers "outcome unknown" and the batch did / did not land; `err` = a plain storage error),
-  the sequencer queueing uncertain notifications, and the retry loop's rewrite (`stepRetry`), incl.
-  faults on the repair write itself. Compaction capping: KB.Backend.doCompact.
+  the sequencer queueing uncertain notifications, and the retry loop's rewrite, incl. faults on the repair
+  write itself. The repair is NOT atomic: `stepRetryRead` (read the key's latest value, deal a revision) and
+  `stepRetryCommit` (compare-and-swap commit, notification, pop / keep) are separate steps between which
+  client requests run (`Action.retry f` = both back to back). Compaction capping: KB.Backend.doCompact.
 -/
 import KB.Lemmas.Retry
 namespace KB.C09
@@ -31,17 +33,85 @@ theorem unknown_is_reported_uncertain (c : Cfg) (st : Store) (ops : List BOp) (s
   rcases hf with rfl | rfl <;> exact ⟨rfl, rfl⟩
 
 /-- Later requests keep flowing: C04's accounting holds under every placement of faults (its theorems
-quantify over all `Fault`s); restated here for the retry loop's own revisions. -/
+quantify over all `Fault`s, and count the revision the retry loop holds between its two steps as in flight);
+restated here for the retry loop's own revisions. A whole `retry()` that deals a revision reports it. -/
 theorem retry_revision_resolved (g : G) (f : Fault) (w : WEvent) (rest : List WEvent) (hq : g.retryQ = w :: rest)
     (hd : (stepRetry g f).dealt = g.dealt + 1) :
     ∃ s ∈ (stepRetry g f).slots, s.rev = g.dealt + 1 := by
   revert hd
-  apply stepRetry_cases (P := fun g' => g'.dealt = g.dealt + 1 → ∃ s ∈ g'.slots, s.rev = g.dealt + 1)
-  · intro h; omega
-  · intro _ h; simp at h
-  · intro w rest q val r st _ _ _ _
-    refine ⟨{ w with rev := g.dealt + 1, valid := r == .ok, uncertain := r == .uncertain }, ?_, rfl⟩
-    simp [G.notify]
+  unfold stepRetry
+  apply stepRetryRead_cases (P := fun g1 => (stepRetryCommit g1 f).dealt = g.dealt + 1 →
+    ∃ s ∈ (stepRetryCommit g1 f).slots, s.rev = g.dealt + 1)
+  · intro p _ h
+    rw [stepRetryCommit_dealt] at h
+    omega
+  · intro _ h; rw [hq] at h; cases h
+  · intro w' rest' _ _ _ h
+    rw [stepRetryCommit_dealt] at h
+    simp at h
+  · intro w' rest' val _ _ _ _ _
+    simp [stepRetryCommit, G.notify]
+
+/-- ... and split: whatever happened since the retry loop's read (any client steps in between), its commit
+step — with every outcome: success, lost compare-and-swap, storage error, unknown outcome — reports the
+revision it holds to the sequencer and leaves the loop at the top of `retry()`. -/
+theorem retry_commit_resolves {g0 g : G} (h0 : C02.Init g0) (hr : Reachable g0 g) (f : Fault) (p : RetryPc)
+    (hp : g.retryPc = some p) :
+    (∃ s ∈ (stepRetryCommit g f).slots, s.rev = p.rev ∧ s.key = p.w.key) ∧ (stepRetryCommit g f).retryPc = none ∧
+      (stepRetryCommit g f).dealt = g.dealt := by
+  have hpos : p.rev ≠ 0 := by
+    have := (C04.committed_lt_repair h0.1 hr p.rev (by simp [C04.repairRev, hp])).1
+    omega
+  refine ⟨?_, ?_, stepRetryCommit_dealt g f⟩
+  · simp [stepRetryCommit, hp, G.notify, hpos]
+  · apply stepRetryCommit_cases (P := fun g' => g'.retryPc = none)
+    · intro hn; exact hn
+    · intros; simp
+
+/-- While the retry loop holds its revision the read revision stays below it (it blocks the sequencer exactly
+like a client's dealt revision) — and it is the revision of no applied write and of no request. -/
+theorem repair_revision_in_flight {g0 g : G} (h0 : C02.Init g0) (hs : C02.StoreOK g0) (hr : Reachable g0 g)
+    (p : RetryPc) (hp : g.retryPc = some p) :
+    g.committed < p.rev ∧ p.rev ≤ g.dealt ∧ p.w.rev < p.rev ∧ (∀ w ∈ g.wlog, w.rev ≠ p.rev) ∧
+      (∀ s ∈ g.slots, s.rev ≠ p.rev) ∧ (∀ c ∈ g.clients, C04.inflightRev c ≠ some p.rev) ∧
+      (∀ d ∈ g.done, d.rev ≠ p.rev) := by
+  obtain ⟨hv, hd⟩ := C02.finv h0 hr
+  have hrpc : g.view.rpc = some p.rev := by simp [G.view, hp]
+  obtain ⟨hfr, hlt⟩ := (SInv.reachable h0 hs hr).rp p hp
+  refine ⟨(hv.rpcR _ hrpc).1, (hv.rpcR _ hrpc).2, hlt, hfr.2.2, ?_, ?_, ?_⟩
+  · intro s hsm e; exact hv.rpcSlot s hsm (by rw [hrpc, e])
+  · intro c hc e; rw [C04.inflightRev_eq] at e; exact hv.rpcInfl c hc _ e hrpc
+  · intro d hdm e; exact hd.dRpc d hdm (by rw [hrpc, e])
+
+/-- The new path of the non-atomic repair: a client write landed between the repair's read and its commit,
+so the index record of the key is no longer the one the repair read (`cur ≠ …`). Then the compare-and-swap
+fails, whatever fault is injected: nothing is written (the client's write stays intact), the revision the
+repair was dealt is reported as a definite invalid one (not `uncertain`: the sequencer will skip it without
+queueing it again), the head of the queue is popped and the loop is back at the top of `retry()`. -/
+theorem repair_loses_to_client_write (g : G) (f : Fault) (p : RetryPc) (hp : g.retryPc = some p) (h0 : p.rev ≠ 0)
+    (cur : Bytes) (hcur : g.store.get (idxKey p.w.key) = some cur)
+    (hne : cur ≠ be8 p.w.rev ++ (if isTomb p.val then [0] else [])) :
+    (stepRetryCommit g f).store = g.store ∧ (stepRetryCommit g f).wlog = g.wlog ∧
+      (stepRetryCommit g f).hist = g.hist ∧
+      (stepRetryCommit g f).retryQ = g.retryQ.drop 1 ∧ (stepRetryCommit g f).retryPc = none ∧
+      (stepRetryCommit g f).dealt = g.dealt ∧ (stepRetryCommit g f).clients = g.clients ∧
+      (stepRetryCommit g f).slots = g.slots ++ [{ p.w with rev := p.rev, valid := false, uncertain := false }] := by
+  have hc : ∃ i cv, (doCommit g.cfg g.store
+      [BOp.cas (idxKey p.w.key) (be8 p.rev ++ if isTomb p.val then [0] else []) (be8 p.w.rev ++ if isTomb p.val then [0] else []),
+       BOp.put (encode p.w.key p.rev) p.val] f) = (.conflict i cv, g.store) := by
+    simp only [doCommit, commit, applyOps, applyOp, hcur, if_neg hne]
+    exact ⟨_, _, rfl⟩
+  obtain ⟨i, cv, hc⟩ := hc
+  simp only [stepRetryCommit, hp, hc]
+  simp [applied, CommitRes.isCas, G.notify, h0]
+
+/-- ... and the sequencer then passes over that revision: it neither emits an event for it nor queues it. -/
+theorem lost_repair_revision_skipped (g : G) (s : WEvent) (hs : g.slots.find? (fun w => w.rev == g.committed + 1) = some s)
+    (hv : s.valid = false) (hu : s.uncertain = false) :
+    (stepSeq g).committed = g.committed + 1 ∧ (stepSeq g).emitted = g.emitted ∧ (stepSeq g).retryQ = g.retryQ ∧
+      (stepSeq g).store = g.store := by
+  have hr : s.rev = g.committed + 1 := by simpa using List.find?_some hs
+  simp [stepSeq, hs, hv, hu, hr]
 
 /-- Compaction does not advance past the unresolved revision. -/
 theorem compaction_capped (c : Cfg) (s : BState) (rev : Nat) (mask : Nat → DelOutcome) (w : WEvent)
@@ -61,23 +131,38 @@ theorem compaction_capped (c : Cfg) (s : BState) (rev : Nat) (mask : Nat → Del
 
 /-- The oldest unresolved revision stays at the head: whatever the repair write returns except success
 or a failed condition, the entry is still queued (so compaction stays capped and the repair is retried). -/
-theorem unrepaired_stays_queued (g : G) (f : Fault) (w : WEvent) (rest : List WEvent) (hq : g.retryQ = w :: rest)
+theorem unrepaired_stays_queued (g : G) (f : Fault) (p : RetryPc) (hp : g.retryPc = some p)
+    (hf : f = .uncApplied ∨ f = .uncNotApplied ∨ f = .err)
+    (hcommit : ∃ st', commit g.cfg.q g.store
+        [BOp.cas (idxKey p.w.key) (be8 p.rev ++ (if isTomb p.val then [0] else []))
+           (be8 p.w.rev ++ (if isTomb p.val then [0] else [])), BOp.put (encode p.w.key p.rev) p.val] = .ok st') :
+    (stepRetryCommit g f).retryQ = g.retryQ := by
+  obtain ⟨st', hc⟩ := hcommit
+  unfold stepRetryCommit
+  simp only [hp]
+  unfold doCommit
+  simp only [hc]
+  rcases hf with rfl | rfl | rfl <;> simp [G.logWrite, applied, CommitRes.isCas] <;> (split <;> rfl)
+
+/-- The same for a whole `retry()` (read and commit back to back). -/
+theorem unrepaired_stays_queued_atomic (g : G) (f : Fault) (w : WEvent) (rest : List WEvent) (hq : g.retryQ = w :: rest)
+    (hn : g.retryPc = none)
     (val : Bytes) (hget : getInternal g.cfg g.store w.key 0 = some (val, w.rev)) (hne : val ≠ [])
     (hf : f = .uncApplied ∨ f = .uncNotApplied ∨ f = .err)
     (hcommit : ∃ st', commit g.cfg.q g.store
         [BOp.cas (idxKey w.key) (be8 (g.dealt + 1) ++ (if isTomb val then [0] else []))
            (be8 w.rev ++ (if isTomb val then [0] else [])), BOp.put (encode w.key (g.dealt + 1)) val] = .ok st') :
     (stepRetry g f).retryQ = w :: rest := by
-  obtain ⟨st', hc⟩ := hcommit
   have hl : (val.length == 0) = false := by
     cases val with
     | nil => exact absurd rfl hne
     | cons _ _ => rfl
+  have hread : stepRetryRead g = { g with dealt := g.dealt + 1, retryPc := some { w := w, rev := g.dealt + 1, val := val } } := by
+    unfold stepRetryRead
+    simp only [hn, hq, hget, hl, bne_self_eq_false, Bool.or_self, Bool.false_eq_true, if_false]
   unfold stepRetry
-  simp only [hq, hget, hl, bne_self_eq_false, Bool.or_self, Bool.false_eq_true, if_false]
-  unfold doCommit
-  simp only [hc]
-  rcases hf with rfl | rfl | rfl <;> simp [G.notify, G.logWrite, applied, CommitRes.isCas] <;> (split <;> rfl)
+  rw [hread, ← hq]
+  exact unrepaired_stays_queued _ f { w := w, rev := g.dealt + 1, val := val } rfl hf hcommit
 
 /-- The last applied write of a key, as the ghost log has it. -/
 def lastWrite (l : List WLog) (k : Bytes) : Option (Nat × Option Bytes) :=
@@ -118,6 +203,26 @@ theorem convergence_counterexample :
   simp only [cexSched, List.mem_cons, List.not_mem_nil, or_false] at ha
   rcases ha with rfl | rfl | rfl | rfl | rfl | rfl | rfl | rfl | rfl <;>
     refine ⟨?_, ?_⟩ <;> (intros; rename_i e; cases e) <;> decide
+
+/-- The interleaving the atomic model could not reach, end to end: request 1 creates `"a"` at revision 1 with
+outcome "unknown, applied"; the sequencer queues revision 1; the retry loop reads (`"a"` is still at revision 1)
+and is dealt revision 2; request 2 updates `"a"` conditioned on revision 1 and succeeds at revision 3 — its slot
+waits behind revision 2; the repair commits: its compare-and-swap fails. The sequencer then skips revision 2,
+emits revision 3; the queue is empty, the state quiescent and converged; the client's value is what the store holds. -/
+def lostSched : List Action :=
+  [ .begin 1 (.create [97] [1]), .step 1 .none, .step 1 .uncApplied, .seq, .retryRead,
+    .begin 2 (.update [97] [2] 1), .step 2 .none, .step 2 .none ]
+
+theorem lost_cas_example :
+    let g := run {} lostSched
+    let g' := run g [.retryCommit .none, .seq, .seq]
+    g.committed = 1 ∧ g.dealt = 3 ∧ (g.retryPc.map (·.rev)) = some 2 ∧ g.slots.map (·.rev) = [3] ∧
+      (act g .seq).committed = 1 ∧
+      g.done.map (·.res) = [.error .uncertain, .ok 3] ∧
+      g'.clients = [] ∧ g'.slots = [] ∧ g'.retryQ = [] ∧ g'.retryPc = none ∧ g'.committed = 3 ∧ g'.emitted.map (fun e => (e.rev, e.key, e.val)) = [(3, [97], [2])] ∧
+      (lastWrite g'.wlog [97]).map (fun p => (p.1, p.2.isNone)) = lastEvent g'.emitted [97] ∧
+      getInternal g'.cfg g'.store [97] 0 = some ([2], 3) := by
+  decide
 
 /-- Convergence, for keys over the documented alphabet (every byte above the split byte): once the engine
 answers again and the queue has drained, store and watch stream agree — for every key the last write the
